@@ -254,15 +254,18 @@ def check(ctx):
                "original-position index sets from split are applied to the receiver itself" if ok else
                "grouped modify applies split's index sets to another frame", clause="grouped modify uses the same partition")
         if bro is not None:
+            from ..forms import expand as _expand04
             ys = [n for n in body_nodes(md.node) if isinstance(n, ast.Yield) and n.value is not None
-                  and pmatch("(__, np.concatenate(__)[_RI])", n.value, {"_RI": bro["_RI"]}) is not None]
+                  and pmatch("(__, np.concatenate(__)[_RI])", _expand04(md, n.value, n, keep={text(bro["_RI"])}), {"_RI": bro["_RI"]}) is not None]
             ok = bool(ys) and precedes(md, ro, ys[0])
             ctx.ob("OWN-3", md, text(ys[0].value) if ys else "yield colname, np.concatenate(column)[restore]", ys[0] if ys else md.node, ok,
                    "group results are concatenated in group order and permuted back" if ok else
                    "grouped results are yielded without being permuted back to the original row order",
                    clause="group-wise results aligned with the original row order")
     bc = [c for _, c in calls_in(md) if repo.dotted(md, c.func) == "dataiter.data_frame.DataFrameColumn" and kw(c, "nrow") is not None]
-    ok = bool(bc) and pmatch("DataFrameColumn(__(_X), nrow=_X.nrow)", bc[0]) is not None
+    from ..forms import expand as _expand04b
+    ok = bool(bc) and (pmatch("DataFrameColumn(__(_X), nrow=_X.nrow)", bc[0]) is not None
+                       or pmatch("DataFrameColumn(__(_X), nrow=_X.nrow)", _expand04b(md, bc[0], bc[0])) is not None)
     ctx.ob("IDX-3", md, text(bc[0]) if bc else "DataFrameColumn(function(x), nrow=x.nrow)", bc[0] if bc else md.node, ok,
            "a scalar group result is broadcast to its own group's size" if ok else "group results are not broadcast to the group's row count", nontrivial=False)
     # ------------------------------------- only ordering primitive: lexsort
